@@ -15,7 +15,11 @@ git -C $W checkout -q -- .
 echo "worktree: demo clean exit=$clean_demo, with change exit=$mut_demo, tests: $tests"
 [ -z "$(git -C /repo status --short)" ] || { echo "/repo is not clean"; exit 2; }
 how=plain
-if ! git -C /repo apply $S/patch.diff 2>/dev/null; then
+if [ -f $S/patch.rebased.diff ]; then
+  # the same edit re-cut against the current /repo HEAD (a later fix: commit touched neighbouring lines)
+  cp $S/patch.rebased.diff $D/; how=rebased
+  git -C /repo apply $S/patch.rebased.diff || { echo "rebased patch does not apply"; exit 2; }
+elif ! git -C /repo apply $S/patch.diff 2>/dev/null; then
   # /repo has moved on since the scratch worktree was cut (later fix: commits): merge the change three-way
   how=3way
   git -C /repo apply -3 $S/patch.diff >/dev/null 2>&1 || { git -C /repo reset -q --hard HEAD; echo "patch does not apply to /repo (even three-way)"; exit 2; }
